@@ -59,13 +59,14 @@ static void zoo(rng& g, char const* name, E const& base, bool thorough)
         c.dists = g.below(2) == 0;
         run_vegas<T>(c, engine, pdf, iters, T(1.5));
     }
-    for (int fam = 0; fam != 2; ++fam)
+    for (int fam = 0; fam != 3; ++fam)
     {
-        std::vector<T> w = fam == 0 ? std::vector<T>{T(2), T(1), T(1), T(0)} : std::vector<T>{T(0), T(1), T(0)};
+        // (fam 2: exactly one channel - the selection still costs its number)
+        std::vector<T> w = fam == 0 ? std::vector<T>{T(2), T(1), T(1), T(0)} : (fam == 1 ? std::vector<T>{T(0), T(1), T(0)} : std::vector<T>{T(1)});
         call_ctx<T> c;
         c.cfg.kind = "mc";
         c.cfg.d = 1 + g.below(thorough ? 3 : 2);
-        c.cfg.densfam = fam;
+        c.cfg.densfam = fam % 2;
         c.plan = make_plan(g);
         c.dists = g.below(2) == 0;
         c.md = c.cfg.d + g.below(3); // more coordinates than random numbers: the consumption follows the random numbers
